@@ -368,7 +368,8 @@ def bp_cv_tabulated(repo: Repo):
     """BeliefPropagationDecoder.compute_cv (exact arctanh mode and the series mode, module helpers followed) evaluated with own arithmetic on two
     Tanner graphs whose tables the checker computes from H (one has a check of degree 1) and three rows of messages (one with exact zeros): the
     message on edge e of check c must be 2 atanh(product over the OTHER edges of c of tanh(vc / 2)), 0 for a check of
-    degree 1, delivered in edge order.  Returns (status, detail) or (None, reason); cached on the repository object."""
+    degree 1, delivered in edge order (to 1e-6; to 1e-4 in the series mode, whose sample products stay below 0.87 - the pinned 105-term series is
+    there exact to 1e-15, a 15-term series is off by 3e-3).  Returns (status, detail) or (None, reason); cached on the repository object."""
     if hasattr(repo, "_kv_bp_cv"):
         return repo._kv_bp_cv
     from ..constfold import PySeq, Unfoldable
@@ -431,7 +432,7 @@ def bp_cv_tabulated(repo: Repo):
                         want = 2 * math.atanh(max(-0.999, min(0.999, p_)))
                     else:
                         want = 0.0
-                    if abs(got[r][edge] - want) > 1e-6:
+                    if abs(got[r][edge] - want) > (1e-6 if exact else 1e-4):
                         return done(VIOLATION, f"H = {H}, arctanh={exact}: the message to edge {edge} of check {c} (other incoming messages {[round(x, 3) for x in oth]}) is {got[r][edge]:.6g}; 2 atanh(product of tanh(vc / 2) over the other edges) is {want:.6g} - the check-node update does not deliver each check's extrinsic product on that check's own edges")
                     cases += 1
     return done(OK, f"{cases} check-to-variable messages on three graphs (irregular with a degree-1 check last and in the middle, regular; exact and series arctanh): 2 atanh of the tanh product over the other edges, in edge order")
